@@ -1,4 +1,11 @@
 import Poulpy.Lemmas.HalSpec
+import Poulpy.Lemmas.CoreDetMisc
+import Poulpy.Props.C04
+import Poulpy.Lemmas.CoreDetKs
+import Poulpy.Model.Core.Pack
+import Poulpy.Model.Core.KsMat
+import Poulpy.Model.Core.KsGgsw
+import Poulpy.Model.Core.Enc
 
 /-!
 # C11 — outputs are fully determined by inputs: no stale data, no stray writes
@@ -116,8 +123,8 @@ theorem assign_capacity (f : Poly → Poly → Poly) (r : Buf) (hr : r.WF) (c : 
 /-- limbs of the result beyond the operand's size are left as they were by `_assign` (documented
 behaviour: "assign forms touch only min limbs") -/
 theorem assign_untouched_limbs (f : Poly → Poly → Poly) (res a : Col) (j : Nat) (hj : a.length ≤ j) (hj2 : j < res.length) :
-    (assignCol f res a)[j]? = res[j]? := by
-  unfold assignCol
+    (Hal.assignCol f res a)[j]? = res[j]? := by
+  unfold Hal.assignCol
   simp [List.getElem?_mapIdx, Nat.not_lt.mpr hj]
 
 /-- non-vacuity: a concrete well-formed 2-column buffer with capacity 2 and active size 1 -/
@@ -128,5 +135,272 @@ example : SameShape
   · intro c hc
     have : c = 0 ∨ c = 1 := by simp at hc; omega
     rcases this with rfl | rfl <;> rfl
+
+
+/-! # Core level (`poulpy-core`)
+
+Every core entry point that takes a result operand, over the executable models `Model/Core/*.lean` and
+`Model/CkksData.lean` (the definitions `pdriver ops|ks|ep|expand|mul|enc|ckks` executes).  Three situations:
+
+1. **The model receives the previous value of `res`** (`Core.Ops.*`, the CKKS `…_into` forms, `packerFlush`, the
+   tensor loops, and the scratch buffers `res_dft` / `res_dft_tmp` of the external-product and relinearisation
+   families): determinacy is a theorem with content — two previous values of the same shape (`SameShapeG`: same
+   metadata, same number of columns, column-wise the same number of limbs) give the same outcome, *including the
+   same panic / error*; proved by a simulation over the column loops (`Lemmas/CoreDet*.lean`).
+2. **In-place / accumulate forms** (`_assign`, `lsh_add`, `lsh_sub`, `rsh`, `sub_negate`, `tensor_apply_add_assign`):
+   the operand is an input, determinacy is false (`accumulate_reads_res`); the frame is stated instead: metadata and
+   number of columns preserved, columns beyond the written rank untouched, and each written column is the kernel
+   applied to *its own* previous content (precise dependence).  Limbs beyond the operand's size inside a written
+   column: `C09.add_assign_size_rule` / `sub_assign_size_rule` / `assign_untouched_limbs`.
+3. **The model receives only the shape of `res`** (`Ks.keyswitch`, `automorphism`, `trace`, `pack`, the GGLWE/GGSW
+   key-switches, `glweExternalProduct`, `matExternalProduct`, row expansion, `mulPlain`, `mulConst`, encryption,
+   decryption): the previous content is not an argument of the model at all, so determinacy in the model is the
+   signature itself (`*_reads_shape_only`, one-line proofs); what carries the weight there is the tie — the harness
+   hands the real code a garbage-filled `res` (two different fills) while the model only ever sees the shape.
+Read-only operands are values, hence unchanged by construction; the harness checks them on the real code.
+-/
+
+open Core Core.Ops C11Core
+
+/-! ## 1a. `Core.Ops`: overwriting operations -/
+
+theorem glwe_add_determined (N : Nat) (res₁ res₂ a b : GLWE) (h : SameShapeG res₁ res₂) :
+    glweAddInto N res₁ a b = glweAddInto N res₂ a b := glweAddInto_det N res₁ res₂ a b h
+
+theorem glwe_sub_determined (N : Nat) (res₁ res₂ a b : GLWE) (h : SameShapeG res₁ res₂) :
+    glweSub N res₁ a b = glweSub N res₂ a b := glweSub_det N res₁ res₂ a b h
+
+theorem glwe_negate_determined (N : Nat) (res₁ res₂ a : GLWE) (h : SameShapeG res₁ res₂) :
+    glweNegate N res₁ a = glweNegate N res₂ a := glweNegate_det N res₁ res₂ a h
+
+theorem glwe_copy_determined (N : Nat) (res₁ res₂ a : GLWE) (h : SameShapeG res₁ res₂) :
+    glweCopy N res₁ a = glweCopy N res₂ a := glweCopy_det N res₁ res₂ a h
+
+theorem glwe_rotate_determined (N : Nat) (k : Int) (res₁ res₂ a : GLWE) (h : SameShapeG res₁ res₂) :
+    glweRotate N k res₁ a = glweRotate N k res₂ a := glweRotate_det N k res₁ res₂ a h
+
+theorem glwe_mul_xp_minus_one_determined (N : Nat) (k : Int) (res₁ res₂ a : GLWE) (h : SameShapeG res₁ res₂) :
+    glweMulXpMinusOne N k res₁ a = glweMulXpMinusOne N k res₂ a := glweMulXpMinusOne_det N k res₁ res₂ a h
+
+/-- `glwe_lsh(res, a, k)` passes `res` to a kernel that reads it only through its number of limbs -/
+theorem glwe_lsh_determined (N sc : Nat) (res₁ res₂ a : GLWE) (k : Nat) (h : SameShapeG res₁ res₂) :
+    glweLsh N res₁ a k = glweLsh N res₂ a k ∧ glweLshS N sc res₁ a k = glweLshS N sc res₂ a k := by
+  refine ⟨glweLsh_det N res₁ res₂ a k h, ?_⟩
+  unfold glweLshS; rw [glweLsh_det N res₁ res₂ a k h]
+
+theorem glwe_normalize_determined (N sc : Nat) (res₁ res₂ a : GLWE) (h : SameShapeG res₁ res₂) :
+    glweNormalize N res₁ a = glweNormalize N res₂ a ∧ glweNormalizeS N sc res₁ a = glweNormalizeS N sc res₂ a := by
+  refine ⟨glweNormalize_det N res₁ res₂ a h, ?_⟩
+  unfold glweNormalizeS; rw [glweNormalize_det N res₁ res₂ a h, h.rank, ← h.2.2.1]
+
+/-- `ggsw_rotate(k, res, a)`: when `res` holds exactly the `dnum·(rank+1)` entries the loop rewrites -/
+theorem ggsw_rotate_determined (N : Nat) (k : Int) (res₁ res₂ a : GGSW) (h : SameShapeGG res₁ res₂)
+    (hfull : res₁.cts.length = res₁.dnum * (res₁.rank + 1)) : ggswRotate N k res₁ a = ggswRotate N k res₂ a :=
+  ggswRotate_det N k res₁ res₂ a h hfull
+
+example : SameShapeG ⟨4, 0, 2, [[[1, 2]], [[3, 4]]]⟩ ⟨4, 0, 2, [[[9, 9]], [[-7, 0]]]⟩ :=
+  ⟨rfl, rfl, rfl, rfl, fun i => by rcases i with _ | _ | i <;> simp⟩
+
+example : glweAddInto 2 ⟨4, 0, 2, [[[1, 2]], [[3, 4]]]⟩ ⟨4, 0, 2, [[[1, 1]], [[1, 1]]]⟩ ⟨4, 0, 2, [[[5, 5]], [[6, 6]]]⟩
+    = .ok ⟨4, 0, 2, [[[6, 6]], [[7, 7]]]⟩ := by decide
+
+/-- frame half of the overwriting operations: metadata and number of columns preserved (every column is written) -/
+theorem overwriting_ops_meta (N : Nat) (k : Int) (s : Nat) (res a b r : GLWE) :
+    (glweAddInto N res a b = .ok r → Meta res r) ∧ (glweSub N res a b = .ok r → Meta res r) ∧
+    (glweNegate N res a = .ok r → Meta res r) ∧ (glweCopy N res a = .ok r → Meta res r) ∧
+    (glweRotate N k res a = .ok r → Meta res r) ∧ (glweMulXpMinusOne N k res a = .ok r → Meta res r) ∧
+    (glweLsh N res a s = .ok r → Meta res r) ∧ (glweNormalize N res a = .ok r → Meta res r) :=
+  ⟨glweAddInto_meta N res a b r, glweSub_meta N res a b r, glweNegate_meta N res a r, glweCopy_meta N res a r,
+   glweRotate_meta N k res a r, glweMulXpMinusOne_meta N k res a r, glweLsh_meta N res a r s, glweNormalize_meta N res a r⟩
+
+/-! ## 1b. `Core.Ops`: in-place and accumulate forms — frame and precise dependence -/
+
+/-- accumulate forms are not determined by their operands: they read `res` -/
+theorem accumulate_reads_res :
+    ∃ res₁ res₂ a : GLWE, SameShapeG res₁ res₂ ∧ glweAddAssign 1 res₁ a ≠ glweAddAssign 1 res₂ a := addAssign_reads_res
+
+theorem glwe_add_assign_frame (N : Nat) (res a r : GLWE) (h : glweAddAssign N res a = .ok r) :
+    Frame (fun j => j < a.rank + 1) res r ∧
+    ∀ j, j < a.rank + 1 → ∃ old, res.cols[j]? = some old ∧ r.cols[j]? = some (vecAddAssignW w64 old (a.cols.getD j [])) :=
+  glweAddAssign_frame N res a r h
+
+theorem glwe_sub_assign_frame (N : Nat) (res a r : GLWE) (h : glweSubAssign N res a = .ok r) :
+    Frame (fun j => j < a.rank + 1) res r ∧
+    ∀ j, j < a.rank + 1 → ∃ old, res.cols[j]? = some old ∧ r.cols[j]? = some (vecSubAssignW w64 old (a.cols.getD j [])) :=
+  glweSubAssign_frame N res a r h
+
+theorem glwe_sub_negate_assign_frame (N : Nat) (res a r : GLWE) (h : glweSubNegateAssign N res a = .ok r) :
+    Frame (fun j => j < max (a.rank + 1) (res.rank + 1)) res r ∧
+    (∀ j, j < a.rank + 1 → ∃ old, res.cols[j]? = some old ∧
+      r.cols[j]? = some (vecSubNegateAssignW w64 old (a.cols.getD j []))) ∧
+    (∀ j, a.rank + 1 ≤ j → j < res.rank + 1 → ∃ old, res.cols[j]? = some old ∧
+      r.cols[j]? = some (vecNegateAssignW w64 old)) := glweSubNegateAssign_frame N res a r h
+
+theorem glwe_lsh_add_frame (N : Nat) (res a r : GLWE) (k : Nat) (h : glweLshAdd N res a k = .ok r) :
+    Frame (fun j => j < a.rank + 1) res r ∧
+    ∀ j, j < a.rank + 1 → ∃ old, res.cols[j]? = some old ∧
+      r.cols[j]? = some (lshAddCol res.base2k k old (a.cols.getD j []) N) := glweLshAdd_frame N res a r k h
+
+theorem glwe_lsh_sub_frame (N : Nat) (res a r : GLWE) (k : Nat) (h : glweLshSub N res a k = .ok r) :
+    Frame (fun j => j < a.rank + 1) res r ∧
+    ∀ j, j < a.rank + 1 → ∃ old, res.cols[j]? = some old ∧
+      r.cols[j]? = some (lshSubCol res.base2k k old (a.cols.getD j []) N) := glweLshSub_frame N res a r k h
+
+/-- the unary in-place forms: every column is the kernel applied to itself, metadata untouched -/
+theorem unary_assign_frames (N : Nat) (k : Int) (s : Nat) (scr : Int) (res r : GLWE) :
+    (glweNegateAssign N res = .ok r → Frame (fun j => j < res.rank + 1) res r ∧
+      ∀ j, j < res.rank + 1 → ∃ old, res.cols[j]? = some old ∧ r.cols[j]? = some (vecNegateAssignW w64 old)) ∧
+    (glweRotateAssign N k res = .ok r → Frame (fun j => j < res.rank + 1) res r ∧
+      ∀ j, j < res.rank + 1 → ∃ old, res.cols[j]? = some old ∧ r.cols[j]? = some (vecRotateAssignW w64 k old)) ∧
+    (glweMulXpMinusOneAssign N k res = .ok r → Frame (fun j => j < res.rank + 1) res r ∧
+      ∀ j, j < res.rank + 1 → ∃ old, res.cols[j]? = some old ∧ r.cols[j]? = some (vecMulXpMinusOneAssignW w64 k old)) ∧
+    (glweLshAssign N res s = .ok r → Frame (fun j => j < res.rank + 1) res r ∧
+      ∀ j, j < res.rank + 1 → ∃ old, res.cols[j]? = some old ∧ r.cols[j]? = some (lshAssignCol res.base2k s old N)) ∧
+    (glweNormalizeAssign N res = .ok r → Frame (fun j => j < res.rank + 1) res r ∧
+      ∀ j, j < res.rank + 1 → ∃ old, res.cols[j]? = some old ∧ r.cols[j]? = some (normalizeAssignCol res.base2k old N)) ∧
+    (glweRsh N scr s res = .ok r → Frame (fun j => j < res.rank + 1) res r ∧
+      ∀ j, j < res.rank + 1 → ∃ old, res.cols[j]? = some old ∧
+        (rshAssignCol? res.base2k s scr old N).map some = some (r.cols[j]?)) :=
+  ⟨glweNegateAssign_frame N res r, glweRotateAssign_frame N k res r, glweMulXpMinusOneAssign_frame N k res r,
+   fun h => glweLshAssign_frame N res r s h, glweNormalizeAssign_frame N res r, glweRsh_frame N scr s res r⟩
+
+example : glweAddAssign 1 ⟨4, 0, 1, [[[1]], [[7]]]⟩ ⟨4, 0, 1, [[[5]]]⟩ = .ok ⟨4, 0, 1, [[[6]], [[7]]]⟩ := by decide
+
+/-! ## 1c. CKKS data path (`Model/CkksData.lean`): the `…_into` forms -/
+
+section ckks
+open Ckks
+
+/-- the destination of every CKKS `…_into` operation is read through its metadata and shape only -/
+theorem ckks_into_determined (env : Env) (N : Nat) (sub : Bool) (k bits : Nat) (d₁ d₂ a b : DCt) (pt : Pt) (pg : Col)
+    (hm : d₁.md = d₂.md) (hs : SameShapeG d₁.g d₂.g) :
+    dRescaleInto env N d₁ k a = dRescaleInto env N d₂ k a ∧
+    dMulPow2Into env N d₁ a bits = dMulPow2Into env N d₂ a bits ∧
+    dDivPow2Into env N d₁ a bits = dDivPow2Into env N d₂ a bits ∧
+    dNegInto env N d₁ a = dNegInto env N d₂ a ∧
+    dAddInto env N sub d₁ a b = dAddInto env N sub d₂ a b ∧
+    dAddPtInto env N sub d₁ a pt pg = dAddPtInto env N sub d₂ a pt pg :=
+  ⟨dRescaleInto_det env N d₁ d₂ k a hm hs, dMulPow2Into_det env N d₁ d₂ a bits hm hs, dDivPow2Into_det env N d₁ d₂ a bits hm hs,
+   dNegInto_det env N d₁ d₂ a hm hs, dAddInto_det env N sub d₁ d₂ a b hm hs, dAddPtInto_det env N sub d₁ d₂ a pt pg hm hs⟩
+
+end ckks
+
+/-! ## 1d. packing: `glwe_packer_flush(packer, res)` -/
+
+theorem packer_flush_determined (N : Nat) (p : Ks.Packer) (res₁ res₂ : GLWE) (h : SameShapeG res₁ res₂) :
+    Ks.packerFlush N p res₁ = Ks.packerFlush N p res₂ := by
+  unfold Ks.packerFlush
+  simp only [← h.1, glweCopy_det N res₁ res₂ _ h, glweNormalize_det N res₁ res₂ _ h]
+
+/-! ## 1e. scratch buffers that the code does not zero: external products, CMux, Cswap, relinearisation, tensor -/
+
+theorem cmux_scratch_determined (big : Bool) (n rb rs : Nat) (t f : List Col) (g : EpGGSW) (res0 res0' tmp0 tmp0' : List Col)
+    (hd : 1 ≤ g.dsize)
+    (h0 : shapeOk g.n (g.rank + 1) g.size res0 = true) (h0' : shapeOk g.n (g.rank + 1) g.size res0' = true)
+    (ht : shapeOk g.n (g.rank + 1) g.size tmp0 = true) (ht' : shapeOk g.n (g.rank + 1) g.size tmp0' = true) :
+    cmux big n rb rs t f g res0 tmp0 = cmux big n rb rs t f g res0' tmp0' ∧
+    cmuxAssign big n rb t f g res0 tmp0 = cmuxAssign big n rb t f g res0' tmp0' ∧
+    cmuxAssignNeg big n rb t f g res0 tmp0 = cmuxAssignNeg big n rb t f g res0' tmp0' ∧
+    cswap big n rb t f g res0 tmp0 = cswap big n rb t f g res0' tmp0' := by
+  refine ⟨?_, ?_, ?_, ?_⟩
+  · unfold cmux cmuxTail; simp only [Core.epInternal_determined _ g res0 res0' tmp0 tmp0' hd h0 h0' ht ht']
+  · unfold cmuxAssign cmuxTail; simp only [Core.epInternal_determined _ g res0 res0' tmp0 tmp0' hd h0 h0' ht ht']
+  · unfold cmuxAssignNeg cmuxTail; simp only [Core.epInternal_determined _ g res0 res0' tmp0 tmp0' hd h0 h0' ht ht']
+  · unfold cswap; simp only [Core.epInternal_determined _ g res0 res0' tmp0 tmp0' hd h0 h0' ht ht']
+
+/-- `glwe_keyswitch_internal(res_dft, a, key)`: same outcome and, column by column, the same big accumulator whatever
+`res_dft` held (`glwe_keyswitch` zeroes it, the fused automorphisms below do not) -/
+theorem keyswitch_internal_scratch_determined (big : Bool) (d₁ d₂ : Hal.Buf) (a : Ks.Ct) (key : Ks.Key) (hD : 1 ≤ key.dsize)
+    (w1 : d₁.WF) (w2 : d₂.WF) (hs1 : d₁.size = key.mat.size) (hs2 : d₂.size = key.mat.size)
+    (hm1 : d₁.maxSize = key.mat.size) (hm2 : d₂.maxSize = key.mat.size)
+    (hc1 : d₁.cols = key.mat.colsOut) (hc2 : d₂.cols = key.mat.colsOut) (hn1 : d₁.n = a.n) (hn2 : d₂.n = a.n) :
+    ORelK (BufAgree key.mat.colsOut) (Ks.keyswitchInternal big d₁ a key) (Ks.keyswitchInternal big d₂ a key) :=
+  keyswitchInternal_det big d₁ d₂ a key hD w1 w2 hs1 hs2 hm1 hm2 hc1 hc2 hn1 hn2
+
+/-- `glwe_automorphism_{add,sub,sub_negate}` and their `_assign` forms take `res_dft` from scratch **without zeroing
+it**; the result is nevertheless independent of what the scratch held (every admissible digit size) -/
+theorem automorphism_fused_scratch_determined (f : Ks.Fused) (big : Bool) (d₁ d₂ : Hal.Buf) (rb rs rr : Nat) (a : Ks.Ct)
+    (key : Ks.Key) (hD : 1 ≤ key.dsize) (w1 : d₁.WF) (w2 : d₂.WF) (hs1 : d₁.size = key.mat.size) (hs2 : d₂.size = key.mat.size)
+    (hm1 : d₁.maxSize = key.mat.size) (hm2 : d₂.maxSize = key.mat.size)
+    (hc1 : d₁.cols = key.mat.colsOut) (hc2 : d₂.cols = key.mat.colsOut) (hn1 : d₁.n = a.n) (hn2 : d₂.n = a.n)
+    (hpos : 0 < key.mat.colsOut) :
+    Ks.automorphismFused f big d₁ rb rs rr a key = Ks.automorphismFused f big d₂ rb rs rr a key :=
+  automorphismFused_det f big d₁ d₂ rb rs rr a key hD w1 w2 hs1 hs2 hm1 hm2 hc1 hc2 hn1 hn2 hpos
+
+example : Ks.automorphismFused .add false Ks.AccumExample.dirty3 4 1 0 (Ks.mkCt 4 1 [[[3]]]) Ks.AccumExample.exKey3
+    = Ks.automorphismFused .add false (Ks.zeroBuf 1 1 4) 4 1 0 (Ks.mkCt 4 1 [[[3]]]) Ks.AccumExample.exKey3 := by decide
+
+/-- `glwe_tensor_relinearize` takes `res_dft` from scratch without zeroing it -/
+theorem relinearize_scratch_determined (big : Bool) (n rb rs : Nat) (a : List Col) (ab : Nat) (g : GGLWE) (res0 res0' : List Col)
+    (hd : 1 ≤ g.dsize) (h0 : shapeOk g.n g.colsOut g.size res0 = true) (h0' : shapeOk g.n g.colsOut g.size res0' = true) :
+    relinearize big n rb rs a ab g g.size res0 = relinearize big n rb rs a ab g g.size res0' := by
+  unfold relinearize
+  simp only [fun x => C04.gglweProductDft_determined x g res0 res0' hd h0 h0']
+
+/-- `glwe_tensor_apply` / `glwe_tensor_square_apply` (non-accumulating) overwrite the whole tensor, ranks 1 and 2
+(`cols = 2, 3`: `cols(cols+1)/2 = 3, 6` columns) -/
+theorem tensor_apply_determined2 (big : Bool) (n rb rs off b : Nat) (a x : List Col) (ka kx : Nat) (ha : a.length = 2)
+    (r0 r1 r2 z0 z1 z2 : Col) :
+    tensorApply false big n rb rs off b a ka x kx [r0, r1, r2] = tensorApply false big n rb rs off b a ka x kx [z0, z1, z2] ∧
+    tensorSquare big n rb rs off b a ka [r0, r1, r2] = tensorSquare big n rb rs off b a ka [z0, z1, z2] := by
+  unfold tensorApply tensorSquare
+  simp only [ha]
+  exact ⟨tensorApplyCore_det2 _ _ _ _ _ _ _ _ _ _, tensorSquareCore_det2 _ _ _ _ _ _ _ _ _ _⟩
+
+theorem tensor_apply_determined3 (big : Bool) (n rb rs off b : Nat) (a x : List Col) (ka kx : Nat) (ha : a.length = 3)
+    (r0 r1 r2 r3 r4 r5 z0 z1 z2 z3 z4 z5 : Col) :
+    tensorApply false big n rb rs off b a ka x kx [r0, r1, r2, r3, r4, r5]
+      = tensorApply false big n rb rs off b a ka x kx [z0, z1, z2, z3, z4, z5] ∧
+    tensorSquare big n rb rs off b a ka [r0, r1, r2, r3, r4, r5] = tensorSquare big n rb rs off b a ka [z0, z1, z2, z3, z4, z5] := by
+  unfold tensorApply tensorSquare
+  simp only [ha]
+  exact ⟨tensorApplyCore_det3 _ _ _ _ _ _ _ _ _ _ _ _ _ _ _ _, tensorSquareCore_det3 _ _ _ _ _ _ _ _ _ _ _ _ _ _ _ _⟩
+
+/- the accumulating form `glwe_tensor_apply_add_assign` reads the tensor: its precise dependence (`res ← res + a ⊗ b`
+limb-wise, ranks 1 and 2) is `C05.tensorApply_acc_eq_add` in Props/C05.lean. -/
+
+/-! ## 2. models that receive only the shape of `res` -/
+
+/-- key-switching family: `res` enters as `(base2k, size, rank)` -/
+theorem keyswitch_family_reads_shape_only (big : Bool) (res₁ res₂ : GLWE) (h : SameShapeG res₁ res₂) (a : Ks.Ct) (key : Ks.Key)
+    (f : Ks.Fused) (dft0 : Hal.Buf) (keys : List Ks.Key) (kb skip : Nat) :
+    Ks.keyswitch big res₁.base2k res₁.size res₁.rank a key = Ks.keyswitch big res₂.base2k res₂.size res₂.rank a key ∧
+    Ks.automorphism big res₁.base2k res₁.size res₁.rank a key = Ks.automorphism big res₂.base2k res₂.size res₂.rank a key ∧
+    Ks.automorphismFused f big dft0 res₁.base2k res₁.size res₁.rank a key
+      = Ks.automorphismFused f big dft0 res₂.base2k res₂.size res₂.rank a key ∧
+    Ks.trace big kb keys skip res₁.base2k res₁.size a = Ks.trace big kb keys skip res₂.base2k res₂.size a := by
+  simp only [h.1, h.size, h.rank, and_self]
+
+theorem pack_reads_shape_only (big : Bool) (N kb : Nat) (keys : List Ks.Key) (res₁ res₂ : GLWE) (h : SameShapeG res₁ res₂)
+    (a : Ks.SlotMap) (lg : Nat) :
+    Ks.pack big N kb keys res₁.base2k res₁.size a lg = Ks.pack big N kb keys res₂.base2k res₂.size a lg := by
+  simp only [h.1, h.size]
+
+/-- external products: `res` enters as `(base2k, size)` -/
+theorem external_product_reads_shape_only (big : Bool) (n : Nat) (res₁ res₂ : GLWE) (h : SameShapeG res₁ res₂)
+    (a : List Col) (ab : Nat) (g : EpGGSW) (rowsRes rowsA colsIn : Nat) (m : List (List Col)) (gl : Bool) :
+    glweExternalProduct big n res₁.base2k res₁.size a ab g = glweExternalProduct big n res₂.base2k res₂.size a ab g ∧
+    matExternalProduct big n res₁.base2k res₁.size rowsRes rowsA colsIn m ab g gl
+      = matExternalProduct big n res₂.base2k res₂.size rowsRes rowsA colsIn m ab g gl := by
+  simp only [h.1, h.size, and_self]
+
+/-- row expansion, plaintext / constant products: `res` enters as `(base2k, size)` -/
+theorem expand_mul_reads_shape_only (big asg : Bool) (n off b : Nat) (res₁ res₂ : GLWE) (h : SameShapeG res₁ res₂)
+    (rows : List (List Col)) (t : ToGGSWKey) (a : List Col) (ka : Nat) (p : Col) (kp : Nat) (c : List Int) :
+    ggswFromGGLWE big n res₁.base2k res₁.size rows t = ggswFromGGLWE big n res₂.base2k res₂.size rows t ∧
+    mulPlain big n res₁.base2k res₁.size off b a ka p kp = mulPlain big n res₂.base2k res₂.size off b a ka p kp ∧
+    mulConst asg big n res₁.base2k res₁.size off b a c = mulConst asg big n res₂.base2k res₂.size off b a c := by
+  simp only [h.1, h.size, and_self]
+
+/-- encryption and decryption: `res` / `pt` enter as `(base2k, k, n, size)` -/
+theorem encrypt_decrypt_reads_shape_only (bits kxe : Nat) (res₁ res₂ : GLWE) (h : SameShapeG res₁ res₂)
+    (masks : List Col) (pt : Option Col) (ptB : Nat) (sk : List Poly) (e : Poly) (pk : List Col) (u : Poly) (es : List Poly)
+    (ct : GLWE) :
+    Core.glweEncryptSk bits res₁.base2k res₁.k res₁.n res₁.size kxe masks pt ptB sk e
+      = Core.glweEncryptSk bits res₂.base2k res₂.k res₂.n res₂.size kxe masks pt ptB sk e ∧
+    Core.glweEncryptPk bits res₁.base2k res₁.k res₁.n res₁.size kxe pk u pt es
+      = Core.glweEncryptPk bits res₂.base2k res₂.k res₂.n res₂.size kxe pk u pt es ∧
+    Core.glweDecrypt bits ct sk res₁.base2k res₁.size = Core.glweDecrypt bits ct sk res₂.base2k res₂.size := by
+  simp only [h.1, h.2.1, h.2.2.1, h.size, and_self]
 
 end C11
